@@ -46,26 +46,31 @@ static const char *cls(size_t need, size_t dmax, size_t len, int dnull, int vali
 }
 
 /* ---- mb -> wide */
-static void t_mbstowcs(const char *src, size_t dmax, size_t len, int dnull, int restart) {
-    char cs[200], hx[80] = "", cb[120]; for (size_t i = 0; src[i]; i++) sprintf(hx + 2 * i, "%02x", (unsigned char)src[i]); if (!src[0]) strcpy(hx, "-");
+/* split > 0 (mbsrtowcs_s only): the first split bytes of src (an incomplete character) have already been consumed into the state object by mbrtowc;
+   the call continues from that state on the rest, as the standard function does */
+static void t_mbstowcs(const char *src0, size_t dmax, size_t len, int dnull, int restart, int split) {
+    const char *src = src0 + split;
+    char cs[200], hx[80] = "", cb[140]; for (size_t i = 0; src0[i]; i++) sprintf(hx + 2 * i, "%02x", (unsigned char)src0[i]); if (!src0[0]) strcpy(hx, "-");
     const char *fn = restart ? "mbsrtowcs_s" : "mbstowcs_s";
-    snprintf(cs, sizeof cs, "%s %s %s %zu %zu %d", loc, fn, hx, dmax, len, dnull);
+    snprintf(cs, sizeof cs, "%s %s %s %zu %zu %d %d", loc, fn, hx, dmax, len, dnull, split);
+    mbstate_t primed; memset(&primed, 0, sizeof primed);
+    if (split) { wchar_t t; if (mbrtowc(&t, src0, split, &primed) != (size_t)-2) return; }   /* not an incomplete character in this locale: no such history */
     /* reference */
-    wchar_t ref[64]; mbstate_t st; memset(&st, 0, sizeof st); const char *sp = src;
+    wchar_t ref[64]; mbstate_t st = primed; const char *sp = src;
     size_t full = mbsrtowcs(NULL, &sp, 0, &st); int valid = full != (size_t)-1;
-    memset(&st, 0, sizeof st); sp = src; size_t rn = mbsrtowcs(ref, &sp, len < 60 ? len : 60, &st);
+    st = primed; sp = src; size_t rn = mbsrtowcs(ref, &sp, len < 60 ? len : 60, &st);
     int valid_prefix = rn != (size_t)-1;      /* the part libc is asked to convert is valid */
     size_t need = valid_prefix ? rn : 0;
     wchar_t *dest = dnull ? NULL : dest_at(dmax, sizeof(wchar_t));
     if (dest) for (size_t i = 0; i < dmax; i++) dest[i] = 0x5a5a;
     size_t ret = 0x7777; int rc = 0, faulted = 0; h_n = 0; errno = 84; n_calls++;   /* an earlier call may have left errno set: results must not depend on it */
-    mbstate_t ps; memset(&ps, 0, sizeof ps); const char *srcp = src;
+    mbstate_t ps = primed; const char *srcp = src;
     if (sigsetjmp(jb, 1) == 0) { armed = 1;
         rc = restart ? f_mbsrtowcs(&ret, dest, dnull ? (dmax ? 64 : 0) : dmax, &srcp, len, &ps, BOSU) : f_mbstowcs(&ret, dest, dnull ? (dmax ? 64 : 0) : dmax, src, len, BOSU);   /* query form: dest NULL, dmax is 0 or only a limit */
         armed = 0; } else faulted = 1;
     if (verbose) { printf("%s: rc=%d *retvalp=%zu handler=%d fault=%d  libc: full=%zd valid=%d need=%zu\n", fn, rc, ret, h_n, faulted, (ssize_t)full, valid, need); if (dest && !faulted) { printf("  dest:"); for (size_t i = 0; i < dmax; i++) printf(" %x", (unsigned)dest[i]); printf("\n"); } }
     if (faulted) { n_fault++; report(fn, "access-outside-the-space-available", "fault", cs); return; }   /* 'limited to the space available' is part of this property too */
-    cls(need, dmax, len, dnull, valid_prefix, cb);
+    cls(need, dmax, len, dnull, valid_prefix, cb); if (split) strcat(cb, ",continues-a-pending-character");
     if (dnull) {
         if (valid && len >= full) { if (rc != 0 || ret != full) report(fn, "query-wrong-length", cb, cs); }
         else if (!valid_prefix && rc == 0) report(fn, "query-accepts-invalid-sequence", cb, cs);
@@ -74,7 +79,7 @@ static void t_mbstowcs(const char *src, size_t dmax, size_t len, int dnull, int 
     if (!valid_prefix) {
         if (rc == 0) { report(fn, "invalid-sequence-accepted", cb, cs); return; }
         if (dest[0] != 0) report(fn, "dest-not-cleared-on-invalid-sequence", cb, cs);
-        if (restart) {   /* the state object must be usable again */
+        if (restart && !split) {   /* the state object must be usable again (with a pending character handed in, "usable" is what was handed in: not judged) */
             size_t r2 = 0x7777; const char *ok = "ok"; const char *okp = ok; wchar_t *d2 = dest_at(4, sizeof(wchar_t));
             int rc2 = f_mbsrtowcs(&r2, d2, 4, &okp, 4, &ps, BOSU);
             if (rc2 != 0 || r2 != 2 || d2[0] != L'o' || d2[1] != L'k') report(fn, "state-unusable-after-invalid-sequence", cb, cs);
@@ -93,10 +98,15 @@ static void t_mbstowcs(const char *src, size_t dmax, size_t len, int dnull, int 
     }
 }
 /* ---- wide -> mb */
-static void t_wcstombs(const wchar_t *src, size_t dmax, size_t len, int dnull, int restart) {
-    char cs[200], hx[120] = "", cb[120]; size_t wl = wcslen(src); for (size_t i = 0; i < wl; i++) sprintf(hx + strlen(hx), "%x.", (unsigned)src[i]); if (!wl) strcpy(hx, "-");
+/* unterm: the source is an array of exactly its characters with no terminator, flush against an inaccessible page; only used where len ends the
+   conversion before a terminator would be looked at (single-byte characters, len <= their number), which is what the standard function allows */
+static unsigned char *uarea;
+static void t_wcstombs(const wchar_t *src, size_t dmax, size_t len, int dnull, int restart, int unterm) {
+    char cs[200], hx[120] = "", cb[180]; size_t wl = wcslen(src); for (size_t i = 0; i < wl; i++) sprintf(hx + strlen(hx), "%x.", (unsigned)src[i]); if (!wl) strcpy(hx, "-");
     const char *fn = restart ? "wcsrtombs_s" : "wcstombs_s";
-    snprintf(cs, sizeof cs, "%s %s %s %zu %zu %d", loc, fn, hx, dmax, len, dnull);
+    snprintf(cs, sizeof cs, "%s %s %s %zu %zu %d %d", loc, fn, hx, dmax, len, dnull, unterm);
+    const wchar_t *given = src;
+    if (unterm) { wchar_t *u = (wchar_t *)(uarea + 2 * PG) - wl; memcpy(u, src, wl * sizeof(wchar_t)); given = u; }
     char ref[128]; mbstate_t st; memset(&st, 0, sizeof st); const wchar_t *sp = src;
     size_t full = wcsrtombs(NULL, &sp, 0, &st); int valid = full != (size_t)-1;
     memset(&st, 0, sizeof st); sp = src; size_t rn = wcsrtombs(ref, &sp, len < 120 ? len : 120, &st);
@@ -104,13 +114,13 @@ static void t_wcstombs(const wchar_t *src, size_t dmax, size_t len, int dnull, i
     char *dest = dnull ? NULL : dest_at(dmax, 1);
     if (dest) memset(dest, 0x5a, dmax);
     size_t ret = 0x7777; int rc = 0, faulted = 0; h_n = 0; errno = 84; n_calls++;   /* an earlier call may have left errno set: results must not depend on it */
-    mbstate_t ps; memset(&ps, 0, sizeof ps); const wchar_t *srcp = src;
+    mbstate_t ps; memset(&ps, 0, sizeof ps); const wchar_t *srcp = given;
     if (sigsetjmp(jb, 1) == 0) { armed = 1;
-        rc = restart ? f_wcsrtombs(&ret, dest, dnull ? 64 : dmax, &srcp, len, &ps, BOSU) : f_wcstombs(&ret, dest, dnull ? 64 : dmax, src, len, BOSU);
+        rc = restart ? f_wcsrtombs(&ret, dest, dnull ? 64 : dmax, &srcp, len, &ps, BOSU) : f_wcstombs(&ret, dest, dnull ? 64 : dmax, given, len, BOSU);
         armed = 0; } else faulted = 1;
     if (verbose) { printf("%s: rc=%d *retvalp=%zu handler=%d fault=%d  libc: full=%zd need(len-limited)=%zu\n", fn, rc, ret, h_n, faulted, (ssize_t)full, need); if (dest && !faulted) { printf("  dest:"); for (size_t i = 0; i < dmax; i++) printf(" %02x", (unsigned char)dest[i]); printf("\n"); } }
     if (faulted) { n_fault++; report(fn, "access-outside-the-space-available", "fault", cs); return; }
-    cls(need, dmax, len, dnull, valid_prefix, cb);
+    cls(need, dmax, len, dnull, valid_prefix, cb); if (unterm) strcat(cb, ",source-ends-at-len-without-terminator");
     if (dnull) {
         if (valid && len >= full) { if (rc != 0 || ret != full) report(fn, "query-wrong-length", cb, cs); }
         return;
@@ -175,6 +185,7 @@ int main(int argc, char **argv) {
     if (!f_mbstowcs || !f_mbsrtowcs || !f_wcstombs || !f_wcsrtombs || !f_wcrtomb || !f_wctomb || !ss) { fprintf(stderr, "missing symbols\n"); return 2; }
     ss((void *)handler);
     arena = mmap(NULL, 6 * PG, PROT_NONE, MAP_PRIVATE | MAP_ANONYMOUS, -1, 0); mprotect(arena + PG, 4 * PG, PROT_READ | PROT_WRITE);
+    uarea = mmap(NULL, 3 * PG, PROT_NONE, MAP_PRIVATE | MAP_ANONYMOUS, -1, 0); mprotect(uarea, 2 * PG, PROT_READ | PROT_WRITE);
     signal(SIGSEGV, on_segv);
     if (first[0]) {
         size_t r; int ri; wchar_t wb[8]; char cb[16]; const char *sp = "a"; const wchar_t *wp = L"a"; mbstate_t st; memset(&st, 0, sizeof st);
@@ -186,10 +197,10 @@ int main(int argc, char **argv) {
     static const char *MB[] = { "a", "\xc3\xa9", "\xe2\x82\xac", "\xf0\x9f\x98\x80", "\x80", "\xc3", "\xed\xa0\x80", "\xf5" };
     static const wchar_t WC[] = { L'a', 0xe9, 0x20ac, 0x1f600, 0xd800, 0x110000 };
     if (replay) {
-        verbose = 1; const char *fn = argv[3]; size_t dmax = atol(argv[5]), len = atol(argv[6]); int dnull = atoi(argv[7]);
-        if (!strncmp(fn, "mb", 2)) { char s[64]; int n = 0; if (strcmp(argv[4], "-")) for (; argv[4][2 * n]; n++) { unsigned v; sscanf(argv[4] + 2 * n, "%2x", &v); s[n] = v; } s[n] = 0; t_mbstowcs(s, dmax, len, dnull, !strcmp(fn, "mbsrtowcs_s")); }
+        verbose = 1; const char *fn = argv[3]; size_t dmax = atol(argv[5]), len = atol(argv[6]); int dnull = atoi(argv[7]); int extra = argc > 8 ? atoi(argv[8]) : 0;
+        if (!strncmp(fn, "mb", 2)) { char s[64]; int n = 0; if (strcmp(argv[4], "-")) for (; argv[4][2 * n]; n++) { unsigned v; sscanf(argv[4] + 2 * n, "%2x", &v); s[n] = v; } s[n] = 0; t_mbstowcs(s, dmax, len, dnull, !strcmp(fn, "mbsrtowcs_s"), extra); }
         else { wchar_t w[32]; int n = 0; char *t = strdup(argv[4]); if (strcmp(t, "-")) for (char *p = strtok(t, "."); p; p = strtok(NULL, ".")) w[n++] = strtoul(p, 0, 16); w[n] = 0;
-               if (!strcmp(fn, "wcrtomb_s")) t_wc1(w[0], dmax, dnull, 0); else if (!strcmp(fn, "wctomb_s")) t_wc1(w[0], dmax, dnull, 1); else t_wcstombs(w, dmax, len, dnull, !strcmp(fn, "wcsrtombs_s")); }
+               if (!strcmp(fn, "wcrtomb_s")) t_wc1(w[0], dmax, dnull, 0); else if (!strcmp(fn, "wctomb_s")) t_wc1(w[0], dmax, dnull, 1); else t_wcstombs(w, dmax, len, dnull, !strcmp(fn, "wcsrtombs_s"), extra); }
         if (nsig) { printf("VERDICT violation %s\n", sigs[0]); return 1; }
         printf("VERDICT ok%s\n", n_fault ? " (faulted: judged by C01/C02)" : ""); return 0;
     }
@@ -198,7 +209,7 @@ int main(int argc, char **argv) {
         for (long wc = 1; wc <= 0x110100; wc++) { if ((wc % nsh) != shard) continue;
             for (int which = 0; which < 2; which++) { t_wc1((wchar_t)wc, 1, 0, which); t_wc1((wchar_t)wc, 3, 0, which); t_wc1((wchar_t)wc, 5, 0, which); t_wc1((wchar_t)wc, 8, 0, which); }
             char ref[MB_LEN_MAX + 1]; mbstate_t st; memset(&st, 0, sizeof st); size_t n = wcrtomb(ref, (wchar_t)wc, &st);
-            if (n != (size_t)-1 && n > 0) { ref[n] = 0; t_mbstowcs(ref, 2, 1, 0, 0); t_mbstowcs(ref, 2, 4, 0, 1); } }
+            if (n != (size_t)-1 && n > 0) { ref[n] = 0; t_mbstowcs(ref, 2, 1, 0, 0, 0); t_mbstowcs(ref, 2, 4, 0, 1, 0); for (size_t j = 1; j < n; j++) { t_mbstowcs(ref, 2, 4, 0, 1, (int)j); t_mbstowcs(ref, 0, 4, 1, 1, (int)j); } } }
         for (int i = 0; i < nsig; i++) printf("{\"t\":\"viol\",\"sig\":\"%s\",\"n\":%ld,\"case\":\"%s\"}\n", sigs[i], sigcnt[i], sigcase[i]);
         printf("{\"t\":\"stat\",\"locale\":\"%s\",\"calls\":%ld,\"faulted_left_to_C01\":%ld,\"violating\":%ld}\n", loc, n_calls, n_fault, n_viol);
         return 0;
@@ -214,8 +225,10 @@ int main(int argc, char **argv) {
             size_t dms[6] = { nch ? nch : 1, nch + 1, nch + 3, 1, 2, bytes + 1 }; size_t lens[6] = { 0, nch ? nch - 1 : 0, nch, nch + 1, nch + 5, bytes + 4 };
             for (int di = 0; di < 6; di++) for (int li = 0; li < 6; li++) for (int r = 0; r < 2; r++) {
                 int dup = 0; for (int k = 0; k < di; k++) if (dms[k] == dms[di]) dup = 1; for (int k = 0; k < li; k++) if (lens[k] == lens[li]) dup = 1; if (dup) continue;
-                t_mbstowcs(s, dms[di], lens[li], 0, r);
-                if (di == 0) { t_mbstowcs(s, 0, lens[li], 1, r); t_mbstowcs(s, 64, lens[li], 1, r); }
+                t_mbstowcs(s, dms[di], lens[li], 0, r, 0);
+                if (di == 0) { t_mbstowcs(s, 0, lens[li], 1, r, 0); t_mbstowcs(s, 64, lens[li], 1, r, 0); }
+                if (r && nc) { size_t fb = strlen(MB[c % 8]);      /* histories: 1..3 bytes of the first unit already pending in the state object */
+                    for (size_t j = 1; j < fb; j++) { t_mbstowcs(s, dms[di], lens[li], 0, 1, (int)j); if (di == 0) { t_mbstowcs(s, 0, lens[li], 1, 1, (int)j); t_mbstowcs(s, 64, lens[li], 1, 1, (int)j); } } }
             }
         }
     }
@@ -229,9 +242,11 @@ int main(int argc, char **argv) {
             size_t dms[7] = { nb ? nb : 1, nb + 1, nb + 4, 1, 2, nb > 1 ? nb - 1 : 1, 4 }; size_t lens[6] = { 0, nb ? nb - 1 : 0, nb, nb + 1, nb + 6, 3 };
             for (int di = 0; di < 7; di++) for (int li = 0; li < 6; li++) for (int r = 0; r < 2; r++) {
                 int dup = 0; for (int k = 0; k < di; k++) if (dms[k] == dms[di]) dup = 1; for (int k = 0; k < li; k++) if (lens[k] == lens[li]) dup = 1; if (dup) continue;
-                t_wcstombs(w, dms[di], lens[li], 0, r);
-                if (di == 0) t_wcstombs(w, 0, lens[li], 1, r);
+                t_wcstombs(w, dms[di], lens[li], 0, r, 0);
+                if (di == 0) t_wcstombs(w, 0, lens[li], 1, r, 0);
             }
+            int ascii = nc > 0; for (int i = 0; i < nc; i++) if (w[i] >= 0x80) ascii = 0;
+            if (ascii) for (size_t len = 0; len <= (size_t)nc; len++) for (size_t dmax = len + 1; dmax <= len + 3; dmax++) for (int r = 0; r < 2; r++) t_wcstombs(w, dmax, len, 0, r, 1);
         }
     }
     if (shard == 0) for (int k = 0; k < 6; k++) for (size_t dmax = 1; dmax <= 6; dmax++) for (int which = 0; which < 2; which++) { t_wc1(WC[k], dmax, 0, which); }
